@@ -268,9 +268,47 @@ pub fn check_dyn_weighted<const T: usize>(w: [usize; 3], rng: &mut TapeRng<T>) {
     std::mem::forget(s);
 }
 
+/// A combination that was already USED and is then extended must behave like the same combination built in one go
+/// ("no matter ... in which order it was built"): select once, add a member, then compare with a fresh twin on equal tapes.
+pub fn check_dyn_extended_after_use<const T: usize>(w: [usize; 2], first: &mut TapeRng<T>, rng: &TapeRng<T>) {
+    let pop = [10u8, 11, 12, 13];
+    let used: DynWeighted<[u8; 4]> = DynWeighted::new(SMarker(0), w[0]);
+    let r0 = used.select(&pop, first).is_ok();
+    assert!(r0 == (w[0] != 0), "C13 DynWeighted with one member: Ok iff its weight is positive");
+    let used = used.with_selector(SMarker(1), w[1]);
+    let fresh: DynWeighted<[u8; 4]> = DynWeighted::new(SMarker(0), w[0]).with_selector(SMarker(1), w[1]);
+    let (mut t1, mut t2) = (rng.clone(), rng.clone());
+    let a = used.select(&pop, &mut t1);
+    let b = fresh.select(&pop, &mut t2);
+    match (&a, &b) {
+        (Ok(x), Ok(y)) => {
+            assert!(which(&pop, x) == which(&pop, y), "C13 DynWeighted extended after its first use delegates to another member than the same combination built in one go");
+            assert!(w[which(&pop, x)] != 0, "C13 DynWeighted used a member of weight zero");
+        }
+        (Err(DynWeightedError::ZeroWeightSum(_)), Err(DynWeightedError::ZeroWeightSum(_))) => {
+            assert!(w[0] + w[1] == 0, "C13 DynWeighted: zero-weight error although some weight is positive");
+        }
+        _ => panic!("C13 DynWeighted extended after its first use: outcome differs from the same combination built in one go"),
+    }
+    assert!(t1.same_state(&t2), "C13 DynWeighted extended after its first use consumes the random stream differently");
+    crate::witness!(matches!(&a, Ok(x) if which(&pop, x) == 1), "WITNESS the member added after the first use is chosen");
+    std::mem::forget(used);
+    std::mem::forget(fresh);
+}
+
 #[cfg(kani)]
 mod proofs {
     use super::*;
+
+    #[kani::proof]
+    #[kani::unwind(8)]
+    fn c13_dyn_extended_after_use() {
+        let w: [usize; 2] = kani::any();
+        kani::assume(w[0] <= 3 && w[1] <= 3);
+        let mut first = TapeRng::<3>::any();
+        let rng = TapeRng::<3>::any();
+        check_dyn_extended_after_use(w, &mut first, &rng);
+    }
 
     #[kani::proof]
     fn c13_pair_new() {
